@@ -34,6 +34,7 @@ def p4_swap_remove_fixup(prog):
     ei = adt_field_index(prog, 'archetype::Archetype', 'entity_identifiers')
     li = adt_field_index(prog, 'archetype::Archetype', 'length')
     S = pathsem.strip_refs
+    deferred_fns = []
     for f in archetype_methods(prog):
         if not any(is_ident_vec_call(f.body, t, ('swap_remove',)) for b_, t in f.body.calls()):
             continue
@@ -67,6 +68,7 @@ def p4_swap_remove_fixup(prog):
         r.inst('%s: swap_remove on the identifier column on %d path(s)' % (f.path, len(rets)))
         if rep:
             continue
+        deferred = None
         for L in (1, 2, 3, 6):
             for i in sorted({0, L // 2, L - 1}):
                 feas = []
@@ -114,6 +116,39 @@ def p4_swap_remove_fixup(prog):
                 if not feas:
                     once('wrong-guard', None, 'no path is feasible for index=%d with %d rows' % (i, L))
                     continue
+                def moved_id_ok(ident, leaf, vlen):
+                    reads = [t for t in pathsem.subterms(ident) if t[0] == 'call' and is_idvec(t) and t[1].rsplit('::', 1)[-1] in ('last', 'get', 'get_unchecked', 'index', 'first', 'get_mut', 'get_unchecked_mut', 'last_mut')]
+                    for t in reads:
+                        nm = t[1].rsplit('::', 1)[-1]
+                        before = vlen(t) == L
+                        if nm.startswith('last'):
+                            row = vlen(t) - 1
+                        elif nm.startswith('first'):
+                            row = 0
+                        else:
+                            row = pathsem.evaluate(t[2][1], leaf) if len(t[2]) > 1 else None
+                        if (before and row == L - 1) or ((not before) and row == i):
+                            return True
+                    return False
+                if deferred is not False and not any(q.calls(lambda e: e['name'] == 'modify_location_index_unchecked') for q in rets):
+                    # the function does not fix the moved entity's location itself: it may hand the obligation to its
+                    # callers by returning the moved identifier (Some exactly when a row was moved)
+                    for p, sw, leaf, vlen in feas:
+                        v = p.ret
+                        parts = list(v[4]) if isinstance(v, tuple) and v[0] == 'agg' and v[1] == 'tuple' else [v]
+                        opts = [(k_, x) for k_, x in enumerate(parts) if isinstance(x, tuple) and x[0] == 'agg' and x[1] == 'core::option::Option']
+                        good = None
+                        for k_, x in opts:
+                            if i < L - 1 and x[2] == 'Some' and moved_id_ok(S(x[4][0]), leaf, vlen):
+                                good = k_
+                            if i == L - 1 and x[2] == 'None':
+                                good = k_
+                        if good is None or (deferred not in (None, False) and deferred != good):
+                            deferred = False
+                            break
+                        deferred = good
+                    if deferred is not False:
+                        continue
                 for p, sw, leaf, vlen in feas:
                     fixes = p.calls(lambda e: e['name'] == 'modify_location_index_unchecked')
                     if i < L - 1:
@@ -147,6 +182,38 @@ def p4_swap_remove_fixup(prog):
                         if fixes:
                             once('unguarded-fixup' if all(q.calls(lambda e: e['name'] == 'modify_location_index_unchecked') for q in rets) else 'wrong-guard', fixes[0]['ln'],
                                  'index=%d is the last of %d rows: nothing is swapped in, yet a location index is rewritten' % (i, L))
+        if deferred not in (None, False) and not rep:
+            deferred_fns.append((f, deferred))
+    # callers of a function that returns the moved identifier instead of fixing its location: on every path where
+    # that identifier is Some, its location index becomes the index the row was taken from (the value passed in)
+    for f, k_ in deferred_fns:
+        callers = [g for g in prog.fns.values() if g.kind != 'Closure' and any(True for _ in g.body.calls(lambda c: (c.get('res') or c).get('dp') == f.dp or c.get('dp') == f.dp))]
+        if not callers:
+            r.viol('P4', f.path + '/deferred-fixup-missing', f.loc(), 'the moved identifier is returned to callers, but no caller was found')
+        for g in callers:
+            r.inst('%s: deferred fix-up for %s' % (g.path[:70], f.name))
+            Eg = pathsem.analyse(prog, g, max_paths=20000)
+            bad = None
+            for p in Eg.paths:
+                if p.ended != 'return':
+                    continue
+                for e in p.calls(lambda e: e['name'] == f.name and e['path'] == f.path):
+                    opt = ('f', e['ret'], k_, 'tuple')
+                    d = p.lookup(('discr', opt))
+                    if d is None:
+                        bad = bad or 'the returned moved identifier is not inspected'
+                        continue
+                    if d != 1:
+                        continue
+                    payload = ('f', ('down', opt, 'Some', 1), 0, 'core::option::Option')
+                    idx_arg = S(e['args'][1]) if len(e['args']) > 1 else None
+                    fx = [q for q in p.calls(lambda q: q['name'] == 'modify_location_index_unchecked' and q['i'] > e['i']) if S(q['args'][1]) == payload]
+                    if len(fx) != 1:
+                        bad = bad or 'a row was moved (Some) but its entity\'s location index is updated %d times' % len(fx)
+                    elif S(fx[0]['args'][2]) != idx_arg:
+                        bad = bad or 'the moved entity\'s new index (%s) is not the index its row was swapped into (%s, the value passed to %s)' % (pathsem.tstr(fx[0]['args'][2])[:50], pathsem.tstr(idx_arg)[:40], f.name)
+            if bad or Eg.truncated:
+                r.viol('P4', '%s/deferred-fixup' % g.path, g.loc(), bad or 'path enumeration cut off')
     return r
 
 
